@@ -1255,3 +1255,96 @@ M.contract(HARNESS + 'harness_file_contents_instruction_parsed_then_validated',
                'nothing else: no main step, no effect': lambda trace: quiet(trace) and no_post_sds_validation(trace),
            },
            raises={ArbitraryException: {}}, raises_only=())
+
+
+# ====================================================================================== 3: the chain, closed at both ends
+# "gives a non-integer where an integer is required" / bad regex: the validator of the argument, as the instruction's
+# validator reaches it (section 2: `exit-code` asks the validator of the INTEGER MATCHER DDV, `stdout ... ` that of the
+# STRING MATCHER DDV; section 1: validate_pre_sds reports what it says; C01/C03: the executor then stops before the
+# sandbox), reports the defect as an error TEXT -- at validation time, without an exception, without effects.
+# Verified from the real code down to `eval` / `re.compile` (models of the engine: any value / any Exception).
+from exactly_lib.impls.types.integer_matcher import parse_integer_matcher as _parse_integer_matcher
+from exactly_lib.impls.types.integer import integer_sdv as _integer_sdv
+from exactly_lib.impls.types.string_ import parse_string as _parse_string
+from exactly_lib.impls.types.string_matcher.impl import matches as _matches
+from exactly_lib.impls.types.regex import parse_regex as _parse_regex
+from exactly_lib.impls.types.matcher.impls import comparison_matcher as _comparison_matcher, operand_object as _operand_object
+
+M.trust('builtins.eval(text): any value or any Exception; re.compile(text, flags): a Pattern or any Exception '
+        '(pyvc.models.m_eval, pyvc/re_model.py) -- as in C18')
+
+
+class StringDdvI(Interface):
+    """StringDdv (as C18_mistakes.StringDdvI): resolving the string value does not raise (C08)"""
+    methods = {
+        'resolving_dependencies': Method(returns=OneOf(frozenset(), frozenset([1])), pure=True),
+        'value_when_no_dir_dependencies': Method(returns=Str, event='string-value'),
+        'value_of_any_dependency': Method(returns=Str, event='string-value'),
+        'describer': Method(returns=Any_),
+    }
+
+
+class StringSdvI(Interface):
+    attrs = {'references': FixedList(Any_)}
+    methods = {'resolve': Method(returns=Iface(StringDdvI), event='resolve-string')}
+
+
+def _m_parse_string(interp, args, kwargs):
+    from pyvc.api import new_opaque
+    s = new_opaque(interp, StringSdvI, 'parsed_string')
+    interp.st.emit('parse-string', args[0], tuple(args[1:]))
+    interp.st.emit('parse-string:returned', args[0], s)
+    return s
+
+
+M.model(_parse_string.StringFromTokensParser.parse, _m_parse_string)
+M.trust('parse_string.StringFromTokensParser.parse(tokens) gives the StringSdv of the token (grammar of strings: C09)')
+
+for _q in ('exactly_lib.common.report_rendering.text_docs:single_pre_formatted_line_object',
+           'exactly_lib.common.report_rendering.text_docs:single_line'):
+    M.contract(_q, trusted=True, params=dict(x=Any_, s=Any_), returns=Iface(c03.ErrorDescriptionI))
+M.trust('text_docs.single_pre_formatted_line_object / single_line build a message object (lazily formatted: C18 '
+        '`lazily-formatted-messages`)')
+
+
+def harness_integer_matcher_parsed_then_validated(operator, tokens, symbols, hds):
+    """`OP INTEGER` (what exit-code, num-lines, ... compare with): the matcher that the real
+    parse_integer_matcher._ComparisonParser makes of the tokens (the string parser is opaque), resolved, validated
+    before the sandbox exists -- what instruction_of_matcher.Instruction.validate_pre_sds reaches (section 2)"""
+    matcher = _parse_integer_matcher._ComparisonParser(operator).parse(tokens)
+    return matcher.resolve(symbols).validator.validate_pre_sds_if_applicable(hds)
+
+
+M.contract(HARNESS + 'harness_integer_matcher_parsed_then_validated',
+           params=dict(operator=Any_, tokens=Any_, symbols=Any_, hds=Any_), returns=Opt(Any_),
+           ensures={
+               'the INTEGER that was parsed is evaluated now: its string as resolved with the symbols given':
+                   lambda symbols, trace:
+                   len([e for e in trace if e[0] == 'resolve-string']) >= 1
+                   and all((e[1], e[2]) == (outcome_event(trace, 'parse-string')[1], (symbols,))
+                           for e in trace if e[0] == 'resolve-string')
+                   and len([e for e in trace if e[0] == 'string-value']) == 1,
+               'nothing else: no effect': lambda trace: quiet(trace) and steps(trace) == [],
+           },
+           raises_only=())      # a text that is not an integer expression is an error TEXT
+
+
+def harness_matches_regex_validated(is_full_match, is_ignore_case, regex_string, symbols, hds):
+    """`matches [-full] REGEX` (string matcher): string_matcher.impl.matches.sdv over the _RegexSdv that ParserOfRegex
+    builds from the parsed string; resolved, validated before the sandbox exists.  Returns (ddv, verdict)."""
+    ddv = _matches.sdv(is_full_match, _parse_regex._RegexSdv(is_ignore_case, regex_string)).resolve(symbols)
+    return ddv, ddv.validator.validate_pre_sds_if_applicable(hds)
+
+
+M.contract(HARNESS + 'harness_matches_regex_validated',
+           params=dict(is_full_match=Bool, is_ignore_case=Bool, regex_string=Iface(StringSdvI), symbols=Any_, hds=Any_),
+           ensures={
+               'the REGEX, as resolved with the symbols given, is compiled now unless it depends on the sandbox: no '
+               'error text means there is a compiled pattern (or validation is postponed to after the sandbox exists)':
+                   lambda regex_string, symbols, result, trace:
+                   [(e[1], e[2]) for e in trace if e[0] == 'resolve-string'] == [(regex_string, (symbols,))]
+                   and (result[1] is not None or result[0]._matcher._regex._validator.pattern is not None
+                        or len(result[0]._matcher._regex._validator.string.resolving_dependencies()) > 0),
+               'nothing else: no effect': lambda trace: quiet(trace) and steps(trace) == [],
+           },
+           raises_only=())      # a regex that does not compile is an error TEXT
